@@ -172,9 +172,14 @@ type Case struct {
 	Ops      []Op
 	TwinOf   int    // c02: global index of the base case, -1 if none
 	TwinKind string // c02: shuffle detour writelog, "" if none
+	Sweep    int    // keys: sweep number 1..6
+	N        int    // keys: length bound
 }
 
 func (c Case) MarshalJSON() ([]byte, error) {
+	if c.Mode == "keys" {
+		return json.Marshal(map[string]any{"mode": c.Mode, "sweep": c.Sweep, "n": c.N})
+	}
 	ops := c.Ops
 	if ops == nil {
 		ops = []Op{}
@@ -199,9 +204,18 @@ func (c *Case) UnmarshalJSON(b []byte) error {
 		Ops      []Op   `json:"ops"`
 		TwinOf   *int   `json:"twin_of"`
 		TwinKind string `json:"twin_kind"`
+		Sweep    int    `json:"sweep"`
+		N        int    `json:"n"`
 	}
 	if err := json.Unmarshal(b, &raw); err != nil {
 		return err
+	}
+	if raw.Mode == "keys" {
+		if raw.Sweep < 1 || raw.Sweep > 6 || raw.N < 0 || raw.N > 24 {
+			return fmt.Errorf("keys: bad sweep %d / bound %d", raw.Sweep, raw.N)
+		}
+		*c = Case{Mode: "keys", Sweep: raw.Sweep, N: raw.N, TwinOf: -1}
+		return nil
 	}
 	*c = Case{Mode: raw.Mode, Backend: raw.Backend, NodeCap: raw.NodeCap, ValueCap: raw.ValueCap, UseLog: raw.UseLog,
 		Ops: raw.Ops, TwinOf: -1, TwinKind: raw.TwinKind}
@@ -830,8 +844,9 @@ func main() {
 	seed := flag.Uint64("seed", 1, "seed")
 	n := flag.Int("cases", 300, "number of emitted cases")
 	out := flag.String("out", "", "output directory")
-	mode := flag.String("mode", "c02", "c02 (shape and root hash) or c03 (tree / overlay answers)")
+	mode := flag.String("mode", "c02", "c02 (shape and root hash), c03 (tree / overlay answers) or keys (node.Key sweeps)")
 	replay := flag.String("replay", "", "replay a case description (JSON file)")
+	klenFlag := flag.String("klen", "11,10,13,12,7,10", "mode keys: length bounds of the six sweeps")
 	flag.StringVar(&capsMode, "caps", "all", "generated cache capacities: all, safe (never evicting) or evicting")
 	flag.Parse()
 	switch capsMode {
@@ -879,6 +894,14 @@ func main() {
 			mainC02(*seed, *n, *out, rp)
 		case "c03":
 			mainC03(*seed, *n, *out, rp)
+		case "keys":
+			klen, err := parseKlen(*klenFlag)
+			if err != nil || (rp != nil && rp.single == nil) {
+				fmt.Fprintln(os.Stderr, "mode keys:", err)
+				code = 2
+				return
+			}
+			mainKeys(*out, klen, rp, os.Getenv("VERIF_MKVS_KTRACE") != "")
 		default:
 			fmt.Fprintln(os.Stderr, "unknown mode", *mode)
 			code = 2
